@@ -300,6 +300,23 @@ Theorem C20_socks_clean_old_refuted : exists chunks, k_crash (feed_all false chu
 Proof. exact socks_clean_head_refuted. Qed.
 Print Assumptions C20_socks_clean_old_refuted.
 
+(* a SOCKS client that half-closes before its request is complete: with the proposed repair
+   (fix_6, not yet in /repo: socks_eof_fx_head = false) the forwarder closes its socket at once and
+   no connection is requested; the code as it is answers "keep open" and, no tunnel having been
+   started, nothing ever closes that socket (finding C20-6) *)
+Theorem C20_socks_eof_incomplete : forall fx chunks,
+  let s := feed_all fx chunks in
+  k_h s <> HNone ->
+  k_tr (fst (seof true s)) = false /\ snd (seof true s) = false /\ k_req (fst (seof true s)) = k_req s.
+Proof. exact socks_eof_incomplete_fixed. Qed.
+Print Assumptions C20_socks_eof_incomplete.
+
+Theorem C20_socks_eof_incomplete_old_refuted : exists chunks,
+  let s := feed_all true chunks in
+  k_h s <> HNone /\ k_req s = None /\ k_tr (fst (seof false s)) = true /\ snd (seof false s) = true.
+Proof. exact socks_eof_incomplete_old_refuted. Qed.
+Print Assumptions C20_socks_eof_incomplete_old_refuted.
+
 (* ---- non-vacuity -------------------------------------------------------------------------- *)
 
 (* early data + early EOF, confirmation, reply, EOF back: everything relayed, both closed *)
